@@ -20,7 +20,10 @@ func (c14) Gen(tier string, seed int64, emit func([]Ev)) {
 	thorough := tier == "thorough"
 	shapes := []int{0, 1, 2, 3, 4, 4, 6, 10, 16, 25, 40}
 	if thorough {
-		shapes = append(append(shapes, shapes...), shapes...)
+		for k := 0; k < 4; k++ {
+			shapes = append(shapes, shapes[:11]...)
+		}
+		shapes = append(shapes, shapes...)
 	}
 	for si, ns := range shapes {
 		pmt := randPMT(r, ns, si%3 == 0)
